@@ -270,7 +270,7 @@ def check(prop, spec, tier, seed, replay=None):
     proof_ok = ok and not pr["failed"] and len(pr["ok"]) == len(pr["theorems"]) and len(pr["theorems"]) > 0
     thorough_extra = {}
     if tier == "thorough" and ok and os.environ.get("VERIF_COQCHK", "1") == "1":
-        thorough_extra = coqchk(prop)
+        thorough_extra = coqchk(prop, spec.get("coqchk_admit", []))
         if thorough_extra.get("rc") not in (0, None):
             proof_ok = False
             pr.setdefault("error", "coqchk failed")
@@ -407,9 +407,12 @@ def check(prop, spec, tier, seed, replay=None):
     return exit_code
 
 
-def coqchk(prop):
+def coqchk(prop, admit_mods=()):
     """thorough tier: independent re-check of the compiled property file and everything beneath it"""
     t = time.time()
-    rc, out = sh("timeout 3000 coqchk -silent -o -Q . V V.Props.%s 2>&1" % prop, cwd=COQ)
+    # enumeration files whose vm_compute proofs coqchk (which has no VM) would take hours to replay are
+    # admitted by name: they stay checked by coqc's kernel + VM only (listed in the property's trusted base)
+    admit = "".join(" -admit %s" % m for m in admit_mods)
+    rc, out = sh("timeout 3000 coqchk -silent -o -Q . V%s V.Props.%s 2>&1" % (admit, prop), cwd=COQ)
     ax = re.findall(r"(?m)^\s+([\w.]+)\s*$", out.split("Axioms:")[-1]) if "Axioms:" in out else []
     return {"rc": rc, "wall_s": round(time.time() - t, 1), "tail": out[-1500:], "axioms": ax}
